@@ -31,12 +31,20 @@ RULE = ("op lines come from exhaustive enumeration of toy curves (every (p,a,b) 
         "for the catalogued curves (boundary scalar classes); non-trivial = the implementation did not refuse; "
         "distinct = distinct (stream, op line)")
 TRUSTED = [
-    "ladders/entry points/constructors/number theory are hand-written models tied by correspondence (Model/C01/*.lean)",
+    "ladders / entry points / number theory / SEC codec are hand-written models tied by correspondence (Model/C01/*.lean); "
+    "the constructors' chains of refusals, _is_prime, the _a_is_zero / _a_is_minus_3 flags, the stand-ins, double_jac / "
+    "_double_jac_helper and _multiplier_decomposer are TRANSLATED from the source each run (Generated/C01Ctor.lean, "
+    "Generated/C01Glv.lean) and the model is proved equal to them",
     "primality of secp256k1 p and n is proved (Pratt certificates); for the other catalogued curves it is a hypothesis of the curve theorems (the code itself runs a Fermat base-2 test)",
     "that the Jacobian formulas are the group law is Proofs/C01/JacRefine.lean (T1); the ladder theorems take it as "
-    "the named hypothesis JacRel",
+    "the named hypothesis JacRel, discharged for btclib's arithmetic by jac_rel_ec",
+    "refusal of off-curve points / length mismatch by the entry points holds by construction of the model; the real refusal is "
+    "tied by the curve.entry.* streams and the offcurve.refused oracle",
 ]
-ASSUMPTIONS = ["Nat.Prime p, Nat.Prime n for the catalogued curves other than secp256k1 (proved there)", "EndoLaw only for points outside <G> (proved on <G> for secp256k1)", "libsecp256k1 is compared, not verified"]
+ASSUMPTIONS = ["Nat.Prime p, Nat.Prime n for the catalogued curves other than secp256k1 (proved there); new_curve_is_curve_ok takes both as hypotheses",
+               "EndoLaw only for points outside <G> (proved on <G> for secp256k1)",
+               "NoTwoTorsionIn H for the subgroup the operands live in (every subgroup of odd order)",
+               "libsecp256k1 is compared, not verified"]
 
 
 # ------------------------------------------------------------------ deterministic blinds
